@@ -2,6 +2,7 @@
 (* Trace validation for C17: one line per pair of twins run on two identical *)
 (* proxies; the verdict is the metamorphic relation JudgeC17 only.           *)
 EXTENDS ProxyJudge, Json, IOUtils
+CONSTANT Prop      \* "C17" (twins: respelled / re-laid-out copies on two identical proxies), or "C10" (the same datagram processed again on one proxy)
 Trace == ndJsonDeserialize(IOEnv.TRACE_FILE)
 VARIABLE l
 Verdict(e) ==
@@ -9,7 +10,9 @@ Verdict(e) ==
     ELSE IF e.stuck THEN "P:C17:message-loop-stalled"
     ELSE IF e.a.parse # "" /\ e.b.parse # "" THEN ""                    \* neither twin was accepted: no relay to compare
     ELSE IF e.a.parse # e.b.parse THEN "P:C17:one-twin-is-rejected-by-the-decoder-the-other-is-not"
-    ELSE JudgeC17(e.a.inmsg, e.a.outs, e.b.inmsg, e.b.outs)
+    ELSE LET v == JudgeC17(e.a.inmsg, e.a.outs, e.b.inmsg, e.b.outs) IN
+         IF v = "" \/ Prop = "C17" THEN v
+         ELSE "P:" \o Prop \o ":the-same-datagram-is-relayed-differently-after-earlier-datagrams (" \o v \o ")"
 TraceInit == l = 1
 TraceNext == /\ l <= Len(Trace) /\ l' = l + 1
              /\ LET e == Trace[l]  v == Verdict(e) IN
